@@ -50,6 +50,14 @@ THEOREMS (all proved for ALL configurations and ALL schedules; Print Assumptions
   Nothing is partial.  Examples in Property.v replay schedules recorded from the implementation (a sleeping
   thread, an oversized grant, a shared tensor object, an error run, a failed open of a worker descriptor).
 
+ROUND-5: r5m3 (_write_parallel submits only tensors with length > 0 -> no callback for zero-byte tensors) was missed
+because unload_from_model never externalises zero-byte initializers.  hc["entry"] now selects the entry point:
+"unload" (default), "convert" (public convert_tensors_to_external on the tensor list) or "write"
+(_write_external_tensors, sharded); generator mode "zerolen" puts zero-element tensors (also a shared empty object)
+in the list; reference, cooperative runs, soak, shrinker and replay all go through invoke_save().  Caught by the
+oracle (callback exactly once per tensor) with a 2-tensor replay; the LTS has one task per tensor, so the trace
+check rejects the run as well.
+
 DEEPENING ROUND (moved from oracle-only into model + theorem + trace check): _thread_file() is now a step of the LTS
 (POpen: the first time a worker gets past the callback it opens its r+b descriptor; attempt k fails with OSError
 iff k is in cfg.c_openfail -> the task raises), the `finally` of _write_parallel closes all descriptors of the pool
